@@ -122,3 +122,7 @@ package writer
 //@   ensures opCalls == old(opCalls)
 //@   modifies um(c.dbInfos), um(c.collectionInfos), um(c.partitionInfos), probeCalls, lastDescribeDatabase, lastDescribeCollection, lastDescribePartition, api.DescribeDatabaseParam.*, api.DescribeCollectionParam.*, api.DescribePartitionParam.*
 //@   panics never
+
+// thin adapter: inlined into the API-event operations
+//@ func (*ChannelWriter).WaitObjReadyForAPIEvent
+//@   inline
